@@ -21,6 +21,11 @@ pub struct Attack {
     pub val: u64,
     /// 0 asked peer, 1 another proven peer, 2 unproven peer
     pub from: u8,
+    /// instead of answering a request: wait until a matched-blocks record is pending in the store, restart the client,
+    /// let a peer become proven again (the filter timer does not fire yet, so the record is not recovered into memory),
+    /// and deliver an UNSOLICITED batch of authentic filters whose start number is not the next height
+    #[serde(default)]
+    pub restart_unsolicited: bool,
 }
 
 #[derive(Debug, Clone, Serialize, Deserialize)]
@@ -74,7 +79,8 @@ impl Property for C06 {
             Tier::Quick => 110u16,
             Tier::Thorough => 300u16,
         };
-        let attack = (0u8..12, 0u8..14, any::<u16>(), any::<u64>(), prop_oneof![6 => Just(0u8), 2 => Just(1u8), 1 => Just(2u8)]).prop_map(|(lead, kind, pos, val, from)| Attack { lead, kind, pos, val, from });
+        let attack = (0u8..12, 0u8..14, any::<u16>(), any::<u64>(), prop_oneof![6 => Just(0u8), 2 => Just(1u8), 1 => Just(2u8)], prop::bool::weighted(0.12))
+            .prop_map(|(lead, kind, pos, val, from, restart_unsolicited)| Attack { lead, kind, pos, val, from, restart_unsolicited });
         (chain_params(maxlen), net_params(), prop::collection::vec(reg_spec(), 1..3), any::<bool>(), prop::collection::vec(attack, 1..5))
             .prop_map(|(mut chain, mut net, mut initial, bad_hash_peer, attacks)| {
                 chain.density = chain.density.max(50);
@@ -118,6 +124,85 @@ impl Property for C06 {
             // honest progress until a GetBlockFilters is in flight
             for _ in 0..a.lead {
                 sim.step(&Step::Deliver(0));
+            }
+            if a.restart_unsolicited {
+                for _ in 0..60 {
+                    if sim.w.storage().get_earliest_matched_blocks().is_some() {
+                        break;
+                    }
+                    if sim.w.outbox_len() == 0 {
+                        sim.w.tick_all();
+                        sim.w.advance(50);
+                    }
+                    sim.step(&Step::Deliver(0));
+                }
+                if let Some(l) = ended_by_ban(&sim.w) {
+                    obs.label(l);
+                    return finish(Ok(()));
+                }
+                let pending = match sim.w.storage().get_earliest_matched_blocks() {
+                    Some(r) => r,
+                    None => {
+                        obs.label("no-matched-blocks-record-pending");
+                        continue;
+                    }
+                };
+                sim.step(&Step::Restart);
+                // the chain has to grow: a peer announcing exactly the stored tip is never asked for a proof
+                let m = sim.main;
+                sim.w.grow(m, 1);
+                // light-client traffic only: peers get proven, the filter protocol's timers do not fire
+                let mut proven: Option<PeerIndex> = None;
+                for _ in 0..40 {
+                    loop {
+                        let pos = sim.w.shared.sent.lock().unwrap().iter().position(|(proto, _, _)| *proto == SupportProtocols::LightClient.protocol_id());
+                        match pos {
+                            Some(p) => {
+                                let m = sim.w.take_request(p).unwrap();
+                                let peer = m.1;
+                                for (proto, bytes) in sim.w.honest_replies(&m) {
+                                    sim.w.deliver(proto, peer, bytes);
+                                }
+                            }
+                            None => break,
+                        }
+                    }
+                    proven = sim.w.connected_peers().iter().map(|p| p.index).find(|p| sim.w.c().peers.get_state(p).map(|s| s.get_prove_state().is_some()).unwrap_or(false));
+                    if proven.is_some() {
+                        break;
+                    }
+                    sim.w.tick(SupportProtocols::LightClient, 0);
+                    sim.w.advance(50);
+                }
+                let sender = match proven {
+                    Some(p) => p,
+                    None => {
+                        obs.label("no-peer-proven-after-restart");
+                        continue;
+                    }
+                };
+                let mf = sim.w.storage().get_min_filtered_block_number();
+                let start_n = if a.val % 4 == 0 { mf.saturating_sub(a.val % 3) } else { mf + 2 + a.val % 3 };
+                let (batch, covers) = {
+                    let c = &sim.w.chains[0];
+                    let tipv = sim.w.peer(sender).map(|p| p.tip).unwrap_or(c.tip());
+                    let (ps, pc, _) = &pending;
+                    let covers = (*ps..*ps + *pc).any(|h| regs.iter().any(|r| r.in_range(h) && c.cells.values().any(|ci| (ci.block == h || ci.spent_at.map(|s| s.0 == h).unwrap_or(false)) && r.matches(&ci.output))));
+                    ((View { chain: c, tip: tipv }).block_filters(start_n.max(1), sim.w.cfg.filter_batch), covers)
+                };
+                if let Some(h) = batch {
+                    let before = sim.w.storage().get_min_filtered_block_number();
+                    sim.w.deliver(SupportProtocols::Filter, sender, wrap_filter(h).as_bytes());
+                    let after = sim.w.storage().get_min_filtered_block_number();
+                    obs.label("attack:unsolicited-shifted-batch-after-restart");
+                    if after != before {
+                        return finish(Err(Failure::new("filtered-height-advanced-by-a-batch-not-starting-at-the-next-height", format!("unsolicited authentic batch starting at {} after a restart with the record {:?} pending; min_filtered {} -> {}", start_n, (pending.0, pending.1), before, after))));
+                    }
+                    if covers {
+                        nt.push(("unsolicited-shifted-batch-after-restart", a.from % 3, if start_n <= mf { "below" } else { "above" }, q));
+                    }
+                }
+                continue;
             }
             let mut found = None;
             for _ in 0..12 {
